@@ -50,11 +50,12 @@ func VerifC14ShardExpired() {
 	en := verifrt.Int64("endNsec")
 	verifrt.Assume(es >= -(1<<40) && es <= 1<<40)
 	verifrt.Assume(en >= 0 && en < 1000000000)
-	dsec := verifrt.Int64("durSec")
-	dns := verifrt.Int64("durNsec")
-	verifrt.Assume(dsec >= 0 && dsec <= 1<<32)
-	verifrt.Assume(dns >= 0 && dns < 1000000000)
-	dur := time.Duration(dsec*1000000000 + dns)
+	// the duration is one arbitrary non-negative int64 of nanoseconds (up to 292 years); the expected
+	// answer splits it into whole seconds and nanoseconds, which is what "end + duration" means
+	d := verifrt.Int64("dur")
+	verifrt.Assume(d >= 0)
+	dur := time.Duration(d)
+	dsec, dns := d/1000000000, d%1000000000
 	end := time.Unix(es, en)
 	which := verifrt.Choose("which", 2)
 	var got bool
